@@ -301,6 +301,31 @@ def run(ctx):
                 good_rec = True
             if key == "mc2b" and pol == Poly.atom(("SELF", 0)) - a * Poly.atom(("OUT", 1)):
                 good_rec = True
+        # every element is defined for every alpha: a store skipped under a condition leaves the
+        # initial buffer, which is the right value only if that buffer is a copy of the input
+        # (mc2b starts from to_coef = a copy; b2mc starts from to_cep = zeros)
+        guarded = []
+        for bb, i, st, tgt, root, chain, val in stores(rb, reb):
+            gs = [g for g in paths.guards(rb, bb, reb) if g[0] in ("true", "false")]
+            if gs:
+                guarded.append((show(paths.bool_atoms(gs[0])[1])[:60], cm.loc_of(st["span"])))
+        if guarded:
+            base = reb.local(0)
+            copy_ok = False
+            if base[0] == "call" and base[1].rsplit("::", 1)[-1] in ("to_coef", "to_cep"):
+                meth = base[1].rsplit("::", 1)[-1]
+                impls = [b2 for pth, b2 in p.bodies.items() if pth.endswith(">::" + meth)]
+                def is_copy(b2):
+                    r = ExprBuilder(b2).local(0)
+                    txt = show(r)
+                    if r[0] == "call" and r[1].endswith("::new") and show(r[2][0]) == "self":
+                        nb = p.body(r[1])
+                        txt = show(ExprBuilder(nb).local(0)) if nb is not None else txt
+                    return "to_vec(" in txt and "from_elem" not in txt
+                copy_ok = bool(impls) and all(is_copy(b2) for b2 in impls)
+            if not copy_ok:
+                ctx.fail("C14-R2", fn, "conditional conversion", "%s writes its result only under `%s`, and the buffer it starts from is not a copy of the input: otherwise the result is that initial buffer (zeros)" % (key, guarded[0][0]), guarded[0][1])
+                good_rec = False
         if good_rec and good_last:
             rec[key] = True
             ctx.ok("C14-R2", "%s: out[last] = in[last]; out[i] = in[i] %s alpha*%s[i+1]" % (key, "+" if sign > 0 else "-", "in" if key == "b2mc" else "out"), rb.loc())
